@@ -8,7 +8,7 @@ from checkcfg import CHECKS, TECH, NOT_APPLICABLE, HOOK_COMMITS
 props = [json.loads(l) for l in open(os.path.join(VERIF, "properties.jsonl"))]
 m = {
     "version": 1,
-    "setup_cmd": "cd /verif/sim && GOFLAGS=-mod=mod GOPROXY=off GOSUMDB=off GOTOOLCHAIN=local go1.26.8 build ./simnet/",
+    "setup_cmd": "cd /verif && bin/check setup",
     "hooks": {
         "guard": "verif",
         "enable": "bin/check builds with `go1.26.8 test -c -tags verif ./checks/` in /verif/sim (go.mod: replace github.com/ansible/receptor => /repo)",
